@@ -14,6 +14,7 @@ import (
 	"fmt"
 	"sync"
 
+	"verifharness/lib/drv"
 	"verifharness/lib/ev"
 	"verifharness/lib/refenc"
 	"verifharness/lib/run"
@@ -121,4 +122,43 @@ func childConcPoll(b run.Batch, r *ev.Result) {
 	}
 	h.queryLive(0, false)
 	h.recheck(true)
+}
+
+// longhist: an archive much longer than anything an in-memory bound would keep
+// (> 104 weeks, i.e. more than two years of operation): week 0 holds reports,
+// one of the two devices is banned afterwards so that the later records stay small, the
+// server is down for W weeks and catches up at the start. Every archived week,
+// the oldest ones included, must be served as it was first published.
+func childLongHist(b run.Batch, r *ev.Result) {
+	h := newHist(b, r, 0, 2)
+	if h == nil {
+		return
+	}
+	defer h.stop()
+	h.week(false)
+	h.ban() // one device stays: every later record carries one (empty) device block
+	if h.dead {
+		return
+	}
+	w := 106 + h.rng.Intn(24)
+	// after the catch-up now-offset lies in [2100, 3100]: no rotation is due when the server is closed again
+	// (a closing server's rotation loop leaves its gate and would rotate while now-offset > 3200)
+	h.restart(h.off + uint32(w*wmodel.Week) + 2100 + uint32(h.rng.Intn(1001)))
+	if h.dead {
+		return
+	}
+	h.newWeeks() // every archived week once, each judged against the record taken at its rotation
+	for _, i := range []int{0, 1, len(h.arch) - 106, len(h.arch) - 105, len(h.arch) - 104, len(h.arch) - 53, len(h.arch) - 1} {
+		if i >= 0 && i < len(h.arch) && !h.dead {
+			h.queryArchived(i, i%2 == 1)
+		}
+	}
+	h.recheck(false)
+	if !h.dead {
+		h.restart(drv.Clock())
+		h.recheck(false)
+	}
+	r.Count("longhist.runs", 1)
+	r.Max("max.archived_weeks_longhist", int64(len(h.arch)))
+	r.Nontrivial(h.tag + "/longhist")
 }
